@@ -51,25 +51,25 @@ def replay_history(w, h, rng, from_file=False):
     obs = []
     lazy = rng.random() < 0.34          # a third of the replays ask nothing until the last batch has been set
     for rnd, step in enumerate(h):
-        cells = [xc.mk_cell(pos[c], v, rng.randint(0, 2)) for c, v in step['batch']]
+        cells = [xc.mk_cell(pos[c], v, rng.randint(0, 3)) for c, v in step['batch']]
         ex.set_cells(cells)
         # calls that change nothing in the ideal executor: an empty batch, the same batch once more
         if rng.random() < 0.3:
             ex.set_cells([])
         if rng.random() < 0.2:
-            ex.set_cells([xc.mk_cell(pos[c], v, rng.randint(0, 2)) for c, v in step['batch']])
+            ex.set_cells([xc.mk_cell(pos[c], v, rng.randint(0, 3)) for c, v in step['batch']])
         if lazy and rnd < len(h) - 1:
             continue
         snap = step['snap']
         order = list(snap['vals'])
         rng.shuffle(order)
         for item in order:
-            got = xc.q_get(ex, pos[item['c']], rng.randint(0, 2))
+            got = xc.q_get(ex, pos[item['c']], rng.randint(0, 3))
             if not same_small(got, item['v']):
                 return False, f"round {rnd + 1}: get {item['c']} = {got} but (workbook (+) overrides) gives {item['v']}", obs
         cs = [it['c'] for it in order[:5]]
         try:
-            many = [xc.val_json('val', c.value) for c in ex.get_cells([xc.mk_cell(pos[c], None, rng.randint(0, 2)) for c in cs])]
+            many = [xc.val_json('val', c.value) for c in ex.get_cells([xc.mk_cell(pos[c], None, rng.randint(0, 3)) for c in cs])]
         except repo.E2PyclException:
             raise
         except Exception:
@@ -218,15 +218,15 @@ def record_trace(w, rng, n):
         x = rng.random()
         if x < 0.3:
             batch = [[rng.choice(wnames), rng.choice([2, 4, 6, 12])] for _ in range(rng.randint(1, 3))]
-            ex.set_cells([xc.mk_cell(pos[c], v, rng.randint(0, 2)) for c, v in batch])
+            ex.set_cells([xc.mk_cell(pos[c], v, rng.randint(0, 3)) for c, v in batch])
             tr.append({'ev': 'set', 'batch': batch})
         elif x < 0.7:
             c = rng.choice(names)
-            tr.append({'ev': 'get', 'c': c, 'res': xc.q_get(ex, pos[c], rng.randint(0, 2))})
+            tr.append({'ev': 'get', 'c': c, 'res': xc.q_get(ex, pos[c], rng.randint(0, 3))})
         elif x < 0.8:
             cs = [rng.choice(names) for _ in range(rng.randint(1, 4))]
             try:
-                res = [xc.val_json('val', c.value) for c in ex.get_cells([xc.mk_cell(pos[c], None, rng.randint(0, 2)) for c in cs])]
+                res = [xc.val_json('val', c.value) for c in ex.get_cells([xc.mk_cell(pos[c], None, rng.randint(0, 3)) for c in cs])]
                 tr.append({'ev': 'many', 'cs': cs, 'res': res})
             except repo.E2PyclException:
                 raise
